@@ -106,6 +106,8 @@ func runCase(c map[string]any) (map[string]any, error) {
 		return ev, runMulti(c, ev)
 	case "open":
 		return ev, runOpen(c, ev)
+	case "batch":
+		return ev, runBatch(c, ev)
 	}
 	return nil, fmt.Errorf("unknown op %q", op)
 }
